@@ -23,8 +23,8 @@ Definition all_of (l : list term) : term :=
 Definition pctx (c : ctx) : ctx := set_subq (fctx c) false.
 
 (* a plain sub-query.  Its own with_namespace decision overrides the caller's. *)
-Definition render_subq (c : ctx) (with_alias subquery : bool) (sq_ : subq) (alias : option string) : res string :=
-  let wn' := Nat.ltb 1 (length (sq_from sq_)) || sq_ns sq_ in
+Definition render_subq (c : ctx) (with_alias subquery : bool) (sq_ : squery) (alias : option string) : res string :=
+  let wn' := Nat.ltb 1 (List.length (sq_from sq_)) || sq_ns sq_ in
   let cs := {| q := q c; sq := sq c; aq := aq c; askw := askw c; dia := dia c; wa := true; wn := wn'; subq := true; subc := subc c |} in
   let cw := set_wa cs false in
   sels <- render_terms cs (sq_selects sq_) ;;
@@ -57,8 +57,8 @@ Definition render_wt (c : ctx) (w : wterm) : res string :=
   | WAnalytic name args filters partition orderbys alias =>
       ss <- render_terms (fctx c) args ;; f <- filter_sql c filters ;;
       ps <- render_terms (pctx c) partition ;; os <- render_obs (pctx c) orderbys ;;
-      let parts := (match ps with [] => [] | _ => ["PARTITION BY " ++ join "," ps] end)
-                   ++ (match os with [] => [] | _ => ["ORDER BY " ++ join "," os] end) in
+      let parts := List.app (match ps with [] => [] | _ => ["PARTITION BY " ++ join "," ps] end)
+                            (match os with [] => [] | _ => ["ORDER BY " ++ join "," os] end) in
       let s := name ++ "(" ++ join "," ss ++ ")" ++ f ++ " OVER(" ++ join " " parts ++ ")" in
       Ok (if wa c then alias_sql c (q c) s alias else s)
   | WExtract part field alias =>
@@ -96,7 +96,7 @@ Definition dump_ctx : ctx := {| q := Some """"; sq := Some "'"; aq := None; askw
 
 Definition dT (w : wterm) : string := text_of (render_wt dump_ctx w).
 Definition dt (t : term) : string := text_of (render dump_ctx t).
-Definition dq (sq_ : subq) : string := text_of (render_subq str_ctx false false sq_ None).
+Definition dq (sq_ : squery) : string := text_of (render_subq str_ctx false false sq_ None).
 Definition dsrc (s : source) : string :=
   match s with
   | SrcTable t => tref_sql str_ctx t
@@ -105,7 +105,7 @@ Definition dsrc (s : source) : string :=
   end.
 Definition dotbl (o : option tref) : string := match o with Some t => tref_sql str_ctx t | None => "" end.
 Definition dow (o : option wterm) : string := match o with Some w => dT w | None => "" end.
-Definition djoin (j : join) : string :=
+Definition djoin (j : qjoin) : string :=
   match j with
   | JCross i => "Join::" ++ dsrc i
   | JOn h i cr => "JoinOn:" ++ h ++ ":" ++ dsrc i ++ ":ON " ++ dT cr
@@ -134,7 +134,7 @@ Definition dump_stmt (s : stmt) : string :=
 Definition star_names (s : stmt) : list string := map (tref_sql str_ctx) (s_star s).
 Definition same_set (a b : list string) : bool :=
   forallb (fun x => existsb (String.eqb x) b) a && forallb (fun x => existsb (String.eqb x) a) b
-  && Nat.eqb (length a) (length b).
+  && Nat.eqb (List.length a) (List.length b).
 
 (* ---- correspondence cases ----
    CTerm: tables A B, the object, its text before / after replace_table under the two contexts, and the harness's
@@ -176,3 +176,161 @@ Definition show15 (c : case15) : string :=
       dump_stmt s ++ " STAR" ++ semi (star_names s) ++ " => " ++ fst (stmt_after A B s) ++ " STAR" ++ semi (snd (stmt_after A B s))
       ++ " covered=" ++ (if cov_stmt A s then "1" else "0")
   end.
+
+(* ------------------------------------------------------------------------------------------ *)
+(* one witness object per (class, child slot): table a sits in exactly that slot              *)
+(* ------------------------------------------------------------------------------------------ *)
+Inductive obj15 := OW (w : wterm) | OS (s : stmt).
+
+Definition show_stmt (s : stmt) : string := dump_stmt s ++ " STAR[" ++ semi (star_names s) ++ "]".
+Definition show_obj (o : obj15) : string :=
+  match o with OW w => text_of (render_wt ns_ctx w) | OS s => show_stmt s end.
+Definition rep_show (A B : tref) (o : obj15) : string :=
+  match o with
+  | OW w => text_of (render_wt ns_ctx (rep_wt A B w))
+  | OS s => match rep_stmt A B s with Ok s' => show_stmt s' | Err e => "!" ++ e end
+  end.
+Definition subst_show (A B : tref) (o : obj15) : string :=
+  match o with OW w => text_of (render_wt ns_ctx (subst_wt A B w)) | OS s => show_stmt (subst_stmt A B s) end.
+
+Definition wa : tref := plain "a".
+Definition wb : tref := plain "b".
+Definition wc : tref := plain "c".
+Definition fa (n : string) : term := TField n (Some wa) None.
+Definition fc (n : string) : term := TField n (Some wc) None.
+Definition one : term := TValI 1 None.
+Definition ca (n : string) : term := TBasic CEq (fa n) one None.
+Definition cc (n : string) : term := TBasic CEq (fc n) one None.
+Definition qa : squery := {| sq_from := [wa]; sq_selects := [fa "k"]; sq_where := None; sq_ns := false |}.
+
+Definition stmt0 (ch : bool) : stmt :=
+  {| s_clickhouse := ch; s_from := [SrcTable wc]; s_insert := None; s_update := None; s_with := [];
+     s_selects := [WT (fc "y")]; s_columns := []; s_values := []; s_wheres := None; s_prewheres := None;
+     s_groupbys := []; s_havings := None; s_orderbys := []; s_joins := []; s_updates := []; s_star := [];
+     s_limit_by := [] |}.
+(* functional update helpers for the witness statements *)
+Definition with_ (s : stmt) f i u w se co va wh pw gb hv ob jn up st lb : stmt :=
+  {| s_clickhouse := s_clickhouse s; s_from := f; s_insert := i; s_update := u; s_with := w; s_selects := se;
+     s_columns := co; s_values := va; s_wheres := wh; s_prewheres := pw; s_groupbys := gb; s_havings := hv;
+     s_orderbys := ob; s_joins := jn; s_updates := up; s_star := st; s_limit_by := lb |}.
+
+Definition stmt_witness (ch : bool) (sl : slot) : option stmt :=
+  let s := stmt0 ch in
+  let mk f i u w se co va wh pw gb hv ob jn up st lb := Some (with_ s f i u w se co va wh pw gb hv ob jn up st lb) in
+  let F := s_from s in let SE := s_selects s in
+  match sl with
+  | S__from => mk [SrcTable wa] None None [] SE [] [] None None [] None [] [] [] [] []
+  | S__insert_table => mk F (Some wa) None [] SE [] [] None None [] None [] [] [] [] []
+  | S__update_table => mk F None (Some wa) [] SE [] [] None None [] None [] [] [] [] []
+  | S__with => mk F None None [("w", qa)] SE [] [] None None [] None [] [] [] [] []
+  | S__selects => mk F None None [] [WT (fa "x")] [] [] None None [] None [] [] [] [] []
+  | S__columns => mk F None None [] SE [fa "x"] [] None None [] None [] [] [] [] []
+  | S__values => mk F None None [] SE [] [[WT (fa "x"); WT one]] None None [] None [] [] [] [] []
+  | S__wheres => mk F None None [] SE [] [] (Some (WT (ca "x"))) None [] None [] [] [] [] []
+  | S__prewheres => mk F None None [] SE [] [] None (Some (WT (ca "x"))) [] None [] [] [] [] []
+  | S__groupbys => mk F None None [] SE [] [] None None [WT (fa "x")] None [] [] [] [] []
+  | S__havings => mk F None None [] SE [] [] None None [] (Some (WT (ca "x"))) [] [] [] [] []
+  | S__orderbys => mk F None None [] SE [] [] None None [] None [(WT (fa "x"), Some "DESC")] [] [] [] []
+  | S__joins => mk F None None [] SE [] [] None None [] None [] [JOn "" (SrcTable wa) (WT (cc "k"))] [] [] []
+  | S__updates => mk F None None [] SE [] [] None None [] None [] [] [(TField "u" None None, WT (fa "x"))] [] []
+  | S__select_star_tables => mk F None None [] SE [] [] None None [] None [] [] [] [wa] []
+  | S__limit_by => if ch then mk F None None [] SE [] [] None None [] None [] [] [] [] [WT (fa "x")] else None
+  | _ => None
+  end.
+
+Definition join_stmt (j : qjoin) : stmt :=
+  with_ (stmt0 false) [SrcTable wc] None None [] [WT (fc "y")] [] [] None None [] None [] [j] [] [] [].
+
+Definition witness_for (k : ctor) (sl : slot) : option obj15 :=
+  let W w := Some (OW w) in
+  match k, sl with
+  | KField, S_table => W (WT (fa "x"))
+  | KStar, S_table => W (WT (TStar (Some wa)))
+  | KNeg, S_term => W (WT (TNeg (fa "x")))
+  | KArith, S_left => W (WT (TArith OAdd (fa "x") (fc "n") None))
+  | KArith, S_right => W (WT (TArith OAdd (fc "n") (fa "x") None))
+  | KBasic, S_left => W (WT (TBasic CEq (fa "x") (fc "n") None))
+  | KBasic, S_right => W (WT (TBasic CEq (fc "n") (fa "x") None))
+  | KCplx, S_left => W (WT (TCplx BAnd (ca "x") (cc "n") None))
+  | KCplx, S_right => W (WT (TCplx BAnd (cc "n") (ca "x") None))
+  | KIn, S_term => W (WT (TIn (fa "x") (TTuple (TCons one TNil) None) false None))
+  | KIn, S_container => W (WT (TIn (fc "n") (TTuple (TCons (fa "x") TNil) None) false None))
+  | KBetween, S_term => W (WT (TBetween (fa "x") one one None))
+  | KBetween, S_start => W (WT (TBetween (fc "n") (fa "x") one None))
+  | KBetween, S_end => W (WT (TBetween (fc "n") one (fa "x") None))
+  | KPeriod, S_term => W (WPeriod (fa "x") one one None)
+  | KPeriod, S_start => W (WPeriod (fc "n") (fa "x") one None)
+  | KPeriod, S_end => W (WPeriod (fc "n") one (fa "x") None)
+  | KBitAnd, S_term => W (WT (TBitAnd (fa "x") "3" None))
+  | KIsNull, S_term => W (WT (TIsNull (fa "x") None))
+  | KNotNull, S_term => W (WT (TNotNull (fa "x") None))
+  | KNot, S_term => W (WT (TNot (ca "x") None))
+  | KAll, S_term => W (WT (TAll (fa "x") None))
+  | KCase, S__cases_crit => W (WT (TCase (WCons (ca "x") one WNil) ONone None))
+  | KCase, S__cases_term => W (WT (TCase (WCons (cc "n") (fa "x") WNil) ONone None))
+  | KCase, S__else => W (WT (TCase (WCons (cc "n") one WNil) (OSome (fa "x")) None))
+  | KFunc, S_args => W (WT (TFunc "F" (TCons one (TCons (fa "x") TNil)) None None))
+  | KTuple, S_values => W (WT (TTuple (TCons (fa "x") TNil) None))
+  | KArray, S_values => W (WT (TArray (TCons (fa "x") TNil) None))
+  | KNested, S_left => W (WNested CEq BAnd (fa "x") one one None)
+  | KNested, S_right => W (WNested CEq BAnd one (fa "x") one None)
+  | KNested, S_nested => W (WNested CEq BAnd one one (fa "x") None)
+  | KAgg, S_args => W (WAgg "SUM" [fa "x"] [] None)
+  | KAgg, S__filters => W (WAgg "SUM" [fc "n"] [ca "x"] None)
+  | KAnalytic, S_args => W (WAnalytic "SUM" [fa "x"] [] [fc "n"] [] None)
+  | KAnalytic, S__filters => W (WAnalytic "SUM" [fc "n"] [ca "x"] [fc "n"] [] None)
+  | KAnalytic, S__partition => W (WAnalytic "RANK" [] [] [fa "x"] [] None)
+  | KAnalytic, S__orderbys => W (WAnalytic "RANK" [] [] [] [(fa "x", Some "DESC")] None)
+  | KExtract, S_field => W (WExtract "YEAR" (fa "x") None)
+  | KExists, S_container => W (WExists qa)
+  | KQuery, _ => option_map OS (stmt_witness false sl)
+  | KClickHouse, _ => option_map OS (stmt_witness true sl)
+  | KJoin, S_item => Some (OS (join_stmt (JCross (SrcTable wa))))
+  | KJoinOn, S_item => Some (OS (join_stmt (JOn "" (SrcTable wa) (WT (cc "k")))))
+  | KJoinOn, S_criterion => Some (OS (join_stmt (JOn "" (SrcTable wc) (WT (ca "k")))))
+  | KJoinUsing, S_item => Some (OS (join_stmt (JUsing "" (SrcTable wa) [TField "k" None None])))
+  | KJoinUsing, S_fields => Some (OS (join_stmt (JUsing "" (SrcTable wc) [fa "k"])))
+  | _, _ => None
+  end.
+
+Definition all_ctors : list ctor :=
+  [KField; KStar; KValue; KLiteral; KParam; KNeg; KArith; KBasic; KCplx; KIn; KBetween; KPeriod; KBitAnd; KIsNull; KNotNull;
+   KNot; KAll; KEmpty; KCase; KFunc; KTuple; KArray; KNested; KAgg; KAnalytic; KExtract; KExists; KQuery; KClickHouse; KJoin;
+   KJoinOn; KJoinUsing].
+Definition all_pairs : list (ctor * slot) := flat_map (fun k => map (pair k) (child_slots k)) all_ctors.
+Definition unvisited_pairs : list (ctor * slot) := filter (fun p => negb (vis (fst p) (snd p))) all_pairs.
+Definition visited_pairs : list (ctor * slot) := filter (fun p => vis (fst p) (snd p)) all_pairs.
+
+(* the witness of an unvisited slot: the code's result renders differently from the object built with b *)
+Definition witness_differs (p : ctor * slot) : bool :=
+  match witness_for (fst p) (snd p) with
+  | Some o => negb (String.eqb (rep_show wa wb o) (subst_show wa wb o))
+  | None => false
+  end.
+(* the witness of a visited slot: same rendering -- except where visiting means calling a method that does not exist *)
+Definition raising_pair (p : ctor * slot) : bool :=
+  match p with (KQuery, S__with) | (KClickHouse, S__with) | (KJoin, S_item) => true | _ => false end.
+Definition witness_agrees (p : ctor * slot) : bool :=
+  match witness_for (fst p) (snd p) with
+  | Some o => if raising_pair p then String.eqb (rep_show wa wb o) "!TypeError"
+              else String.eqb (rep_show wa wb o) (subst_show wa wb o)
+  | None => false
+  end.
+
+(* committed: the slots the code visits today.  Dropping one of them must break the build. *)
+Definition expected_visited : list (ctor * slot) :=
+  [(KField, S_table); (KStar, S_table); (KArith, S_left); (KArith, S_right); (KBasic, S_left); (KBasic, S_right);
+   (KCplx, S_left); (KCplx, S_right); (KIn, S_term); (KBetween, S_term); (KBitAnd, S_term); (KIsNull, S_term);
+   (KNotNull, S_term); (KNot, S_term); (KCase, S__cases_crit); (KCase, S__cases_term); (KCase, S__else); (KFunc, S_args);
+   (KTuple, S_values); (KArray, S_values); (KNested, S_left); (KNested, S_right); (KNested, S_nested); (KAgg, S_args);
+   (KAnalytic, S_args);
+   (KQuery, S__from); (KQuery, S__insert_table); (KQuery, S__update_table); (KQuery, S__with); (KQuery, S__selects);
+   (KQuery, S__columns); (KQuery, S__values); (KQuery, S__wheres); (KQuery, S__prewheres); (KQuery, S__groupbys);
+   (KQuery, S__havings); (KQuery, S__orderbys); (KQuery, S__joins); (KQuery, S__select_star_tables);
+   (KClickHouse, S__from); (KClickHouse, S__insert_table); (KClickHouse, S__update_table); (KClickHouse, S__with);
+   (KClickHouse, S__selects); (KClickHouse, S__columns); (KClickHouse, S__values); (KClickHouse, S__wheres);
+   (KClickHouse, S__prewheres); (KClickHouse, S__groupbys); (KClickHouse, S__havings); (KClickHouse, S__orderbys);
+   (KClickHouse, S__joins); (KClickHouse, S__select_star_tables); (KClickHouse, S__limit_by);
+   (KJoin, S_item); (KJoinOn, S_item); (KJoinOn, S_criterion); (KJoinUsing, S_item); (KJoinUsing, S_fields)].
+Definition pair_eqb (a b : ctor * slot) : bool := Nat.eqb (ctor_id (fst a)) (ctor_id (fst b)) && slot_eqb (snd a) (snd b).
+Definition show_pair (p : ctor * slot) : string := ctor_class (fst p) ++ "." ++ slot_attr (snd p).
